@@ -21,8 +21,8 @@ Definition delivers_ok (mux_ok : list str -> bool) (l : label) : Prop :=
   | _ => True
   end.
 
-Lemma step_crashed_cur validated mux_ok s l s' :
-  step validated mux_ok s l = Some s' ->
+Lemma step_crashed_cur sl validated mux_ok s l s' :
+  step sl validated mux_ok s l = Some s' ->
   crashed s = false /\
   ((l = LBootCrash /\ mux_ok (map rpath (routes (cur s))) = false /\
     new_config_ok validated mux_ok (routes (cur s)) = true) \/
@@ -35,19 +35,19 @@ Proof.
   - left. apply andb_true_iff in Heqb as [A B]. apply negb_true_iff in B. auto.
 Qed.
 
-Theorem crash_free validated mux_ok c0 ls : forall s,
+Theorem crash_free sl validated mux_ok c0 ls : forall s,
   mux_ok (map rpath (routes c0)) = true ->
   Forall (delivers_ok mux_ok) ls ->
-  run (step validated mux_ok) (init c0) ls = Some s ->
+  run (step sl validated mux_ok) (init c0) ls = Some s ->
   crashed s = false /\ mux_ok (map rpath (routes (cur s))) = true.
 Proof.
   intros s H0 Hd. revert s.
   assert (G : forall ls s0 s, crashed s0 = false -> mux_ok (map rpath (routes (cur s0))) = true ->
-              Forall (delivers_ok mux_ok) ls -> run (step validated mux_ok) s0 ls = Some s ->
+              Forall (delivers_ok mux_ok) ls -> run (step sl validated mux_ok) s0 ls = Some s ->
               crashed s = false /\ mux_ok (map rpath (routes (cur s))) = true).
   { clear. induction ls as [|l ls IH]; intros s0 s Hc Hm Hd Hr.
     - injection Hr as <-. auto.
-    - cbn [run] in Hr. destruct (step validated mux_ok s0 l) as [s1|] eqn:E; [|discriminate].
+    - cbn [run] in Hr. destruct (step sl validated mux_ok s0 l) as [s1|] eqn:E; [|discriminate].
       inversion Hd as [|? ? Hl Hd']; subst.
       apply step_crashed_cur in E as (_ & [(-> & Hf & _)|(Hc1 & Hcur)]); [congruence|].
       eapply IH; [exact Hc1| |exact Hd'|exact Hr].
@@ -56,13 +56,13 @@ Proof.
 Qed.
 
 (* with the candidate repair NewConfig validates the patterns: no hypothesis on what is delivered *)
-Theorem crash_free_validated mux_ok c0 ls s :
-  run (step true mux_ok) (init c0) ls = Some s -> crashed s = false.
+Theorem crash_free_validated sl mux_ok c0 ls s :
+  run (step sl true mux_ok) (init c0) ls = Some s -> crashed s = false.
 Proof.
-  assert (G : forall ls s0 s, crashed s0 = false -> run (step true mux_ok) s0 ls = Some s -> crashed s = false).
+  assert (G : forall ls s0 s, crashed s0 = false -> run (step sl true mux_ok) s0 ls = Some s -> crashed s = false).
   { clear. induction ls as [|l ls IH]; intros s0 s Hc Hr.
     - injection Hr as <-. auto.
-    - cbn [run] in Hr. destruct (step true mux_ok s0 l) as [s1|] eqn:E; [|discriminate].
+    - cbn [run] in Hr. destruct (step sl true mux_ok s0 l) as [s1|] eqn:E; [|discriminate].
       apply step_crashed_cur in E as (_ & [(-> & Hf & Hn)|(Hc1 & _)]).
       + unfold new_config_ok in Hn. destruct (routes (cur s0)); [discriminate|]. congruence.
       + eapply IH; eauto. }
@@ -70,9 +70,9 @@ Proof.
 Qed.
 
 (* the defect: a configuration NewConfig accepts whose patterns the mux rejects crashes Run() *)
-Theorem crash_witness mux_ok c0 :
+Theorem crash_witness sl mux_ok c0 :
   routes c0 <> [] -> mux_ok (map rpath (routes c0)) = false ->
-  exists s, run (step false mux_ok) (init c0) [LRunCall; LRunStart; LRunLock; LBootCrash] = Some s /\
+  exists s, run (step sl false mux_ok) (init c0) [LRunCall; LRunStart; LRunLock; LBootCrash] = Some s /\
             crashed s = true.
 Proof.
   intros Hne Hm.
@@ -114,20 +114,20 @@ Proof.
   - cbn [own_part filter]. fold (own_part (net_del n a)). fold (own_part n). now rewrite IH.
 Qed.
 
-Lemma unchanged_enters validated mux_ok s i c s' :
+Lemma unchanged_enters sl validated mux_ok s i c s' :
   kpc s = KFetch -> holder s = Some (ByReload i) ->
   go_config_equal c (cur s) = true ->
-  step validated mux_ok s (LFetch (CbCfg c)) = Some s' ->
+  step sl validated mux_ok s (LFetch (CbCfg c)) = Some s' ->
   kpc s' = KUnchanged /\ servers_untouched s s'.
 Proof.
   intros Ek Eh Ee H. open_step H. rewrite Ek, Eh, Ee in H. destruct (crashed s); [discriminate|].
   injection H as <-. split; [reflexivity|repeat split].
 Qed.
 
-Lemma changed_takes_new validated mux_ok s i c s' :
+Lemma changed_takes_new sl validated mux_ok s i c s' :
   kpc s = KFetch -> holder s = Some (ByReload i) ->
   go_config_equal c (cur s) = false ->
-  step validated mux_ok s (LFetch (CbCfg c)) = Some s' ->
+  step sl validated mux_ok s (LFetch (CbCfg c)) = Some s' ->
   cur s' = c /\ kpc s' = KStopPending.
 Proof.
   intros Ek Eh Ee H. open_step H. rewrite Ek, Eh, Ee in H. destruct (crashed s); [discriminate|].
@@ -135,10 +135,11 @@ Proof.
 Qed.
 
 Section Protocol.
+  Variable stop_locked : bool.
   Variable validated : bool.
   Variable mux_ok : list str -> bool.
-  Notation step := (step validated mux_ok).
-  Notation Inv := (Inv mux_ok).
+  Notation step := (step stop_locked validated mux_ok).
+  Notation Inv := (Inv stop_locked mux_ok).
 
   Lemma unchanged_step_inv s l s' :
     Inv s -> kpc s = KUnchanged -> step s l = Some s' ->
@@ -147,9 +148,9 @@ Section Protocol.
     intros I Ek H.
     assert (Hh : exists i, holder s = Some (ByReload i)).
     { destruct (holder s) as [[|i]|] eqn:Eh; [| eauto |].
-      - destruct (i_run _ _ I Eh) as [[_ Hb]|[_ Hb]]; rewrite Ek in Hb; contradiction.
-      - apply (i_free _ _ I) in Eh. congruence. }
-    destruct Hh as [i Eh]. pose proof (i_rel _ _ I i Eh) as Ef.
+      - destruct (i_run _ _ _ I Eh) as [[_ Hb]|[_ Hb]]; rewrite Ek in Hb; contradiction.
+      - apply (i_free _ _ _ I) in Eh. congruence. }
+    destruct Hh as [i Eh]. pose proof (i_rel _ _ _ I i Eh) as Ef.
     destruct l; open_step H; rewrite ?Ek, ?Eh, ?Ef in H; cbn [fsm_allowed] in H; crush_step H;
       try (split; [repeat split; cbn; auto|cbn; auto]; fail).
     - (* LBindOk: impossible, the live server is already listening *)
@@ -158,8 +159,9 @@ Section Protocol.
       | Hs : srv_at s ?sid = Some ?x, Hb : (_ && _ && _) = true |- _ =>
         unfold srv_at in Hs; apply andb_true_iff in Hb as [Hb _]; apply andb_true_iff in Hb as [E1 E2];
           apply sv_pc_eqb_eq in E1; apply negb_true_iff in E2;
-          assert (s_pc x = SvListening) by (eapply (i_listen _ _ I); eauto; congruence); congruence
+          assert (s_pc x = SvListening) by (eapply (i_listen _ _ _ I); eauto; congruence); congruence
       end.
+    - split; [repeat split; cbn; auto; try (apply map_upd_pc; auto); apply upd_length|cbn; auto].
     - split; [repeat split; cbn; auto; try (apply map_upd_pc; auto); apply upd_length|cbn; auto].
     - split; [repeat split; cbn; auto; try (apply map_upd_pc; auto); apply upd_length|cbn; auto].
     - split; [repeat split; cbn; auto; try (apply map_upd_pc; auto); apply upd_length|cbn; auto].
@@ -183,21 +185,21 @@ Section Protocol.
   Proof.
     intros I Hf Hr.
     assert (Hrp : rpc s = RSelect \/ rpc s = RWantStop)
-      by (destruct (i_running _ _ I Hf) as [?|[?|?]]; auto; contradiction).
+      by (destruct (i_running _ _ _ I Hf) as [?|[?|?]]; auto; contradiction).
     assert (Hh : holder s = None).
     { destruct (holder s) as [[|i]|] eqn:Eh; [| |reflexivity].
-      - destruct (i_run _ _ I Eh) as [[E _]|[E _]]; destruct Hrp; congruence.
-      - pose proof (i_rel _ _ I i Eh). congruence. }
-    pose proof (proj1 (i_free _ _ I) Hh) as Ek.
-    destruct (i_has _ _ I) as (sid & Hs & sv & Hn & Hsh); [left; split; [exact Hf|tauto]|].
+      - destruct (i_run _ _ _ I Eh) as [[E _]|[E _]]; destruct Hrp; congruence.
+      - pose proof (i_rel _ _ _ I i Eh). congruence. }
+    pose proof (proj1 (i_free _ _ _ I) Hh) as Ek.
+    destruct (i_has _ _ _ I) as (sid & Hs & sv & Hn & Hsh); [left; split; [exact Hf|tauto]|].
     assert (Hc : s_cfg sv = cur s).
-    { eapply (i_cfg _ _ I); eauto. intros [E _]. congruence. }
-    assert (Hl : s_pc sv = SvListening) by (eapply (i_listen _ _ I); eauto; congruence).
+    { eapply (i_cfg _ _ _ I); eauto. intros [E _]. congruence. }
+    assert (Hl : s_pc sv = SvListening) by (eapply (i_listen _ _ _ I); eauto; congruence).
     exists sid, sv. repeat split; auto.
-    - rewrite <- Hc. eapply (i_mux _ _ I); eauto.
-    - rewrite <- Hc. eapply (i_bound _ _ I); eauto.
-    - intros a sid' Hg. apply get_in in Hg. destruct (i_net _ _ I _ _ Hg) as (sv' & Hn' & Hsh' & _).
-      destruct (i_live _ _ I sid') as [E _]; [exists sv'; auto|]. congruence.
+    - rewrite <- Hc. eapply (i_mux _ _ _ I); eauto.
+    - rewrite <- Hc. eapply (i_bound _ _ _ I); eauto.
+    - intros a sid' Hg. apply get_in in Hg. destruct (i_net _ _ _ I _ _ Hg) as (sv' & Hn' & Hsh' & _).
+      destruct (i_live _ _ _ I sid') as [E _]; [exists sv'; auto|]. congruence.
   Qed.
 
   Theorem running_serves c0 ls s :
@@ -209,6 +211,20 @@ Section Protocol.
                    net_get (net s) (addr (cur s)) = Some (Own sid) /\
                    (forall a sid', net_get (net s) a = Some (Own sid') -> sid' = sid).
   Proof. intros Hn Hr. apply running_serves_inv. eapply inv_reachable; eauto. Qed.
+
+  (* with the repaired shutdown (Transition(Stopping) under the mutex) the exclusion disappears *)
+  Theorem running_serves_repaired c0 ls s :
+    stop_locked = true -> no_foreign ls -> run step (init c0) ls = Some s ->
+    fsm_st s = FRunning ->
+    exists sid sv, server s = Some sid /\ nth_error (servers s) sid = Some sv /\
+                   s_cfg sv = cur s /\ s_shut sv = false /\ s_pc sv = SvListening /\
+                   mux_ok (map rpath (routes (cur s))) = true /\
+                   net_get (net s) (addr (cur s)) = Some (Own sid) /\
+                   (forall a sid', net_get (net s) a = Some (Own sid') -> sid' = sid).
+  Proof.
+    intros Hl Hn Hr Hf. pose proof (inv_reachable stop_locked validated mux_ok c0 ls s Hn Hr) as I.
+    apply running_serves_inv; auto. intros E. exact (i_locked _ _ _ I Hl E Hf).
+  Qed.
 
   Lemma ostr_eqb_refl x : ostr_eqb x x = true.
   Proof. destruct x; cbn; [apply str_eqb_refl|reflexivity]. Qed.
@@ -229,15 +245,40 @@ Section Protocol.
       intros [p m] Hin. apply in_map_iff in Hin as (r & Hr' & _). injection Hr' as <- <-. apply ostr_eqb_refl.
   Qed.
 
+  Theorem running_observable_repaired c0 ls s :
+    stop_locked = true -> no_foreign ls -> run step (init c0) ls = Some s ->
+    crashed s = false -> fsm_st s = FRunning ->
+    step s (LObsDial (addr (cur s)) true) = Some s /\
+    step s (LObsServe (addr (cur s))
+              (map (fun r => (rpath r, route_of_path (routes (cur s)) (rpath r))) (routes (cur s)))) = Some s.
+  Proof.
+    intros Hl Hn Hr Hc Hf. apply (running_observable c0 ls s Hn Hr Hc Hf).
+    pose proof (inv_reachable stop_locked validated mux_ok c0 ls s Hn Hr) as I.
+    intros E. exact (i_locked _ _ _ I Hl E Hf).
+  Qed.
+
+  (* stopServer reaches the live server, however many reloads came before: with an un-shut server the once is
+     armed and r.server points at it, so the skip path is closed and Shutdown is called on exactly that server *)
+  Theorem stop_reaches_live_server c0 ls s sid sv :
+    no_foreign ls -> run step (init c0) ls = Some s ->
+    crashed s = false -> kpc s = KStopPending ->
+    nth_error (servers s) sid = Some sv -> s_shut sv = false ->
+    step s LStopSkip = None /\ step s (LStopCallS sid) <> None.
+  Proof.
+    intros Hn Hr Hc Hk Hsv Hsh. pose proof (inv_reachable stop_locked validated mux_ok c0 ls s Hn Hr) as I.
+    destruct (i_live _ _ _ I sid) as [Es Eo]; [exists sv; auto|].
+    unfold HttpServer.step, step_core. rewrite Hc, Hk, Es, Eo, Nat.eqb_refl. split; [reflexivity|discriminate].
+  Qed.
+
   (* once Run has returned no server created by this runner is bound *)
   Theorem released c0 ls s :
     no_foreign ls -> run step (init c0) ls = Some s ->
     (exists r, rpc s = RRet r) \/ rpc s = RDone ->
     forall a sid, net_get (net s) a <> Some (Own sid).
   Proof.
-    intros Hn Hr Hret a sid Hg. pose proof (inv_reachable validated mux_ok c0 ls s Hn Hr) as I.
-    destruct (i_ret _ _ I Hret) as (_ & _ & Hall).
-    apply get_in in Hg. destruct (i_net _ _ I _ _ Hg) as (sv & Hsv & Hsh & _).
+    intros Hn Hr Hret a sid Hg. pose proof (inv_reachable stop_locked validated mux_ok c0 ls s Hn Hr) as I.
+    destruct (i_ret _ _ _ I Hret) as (_ & _ & Hall).
+    apply get_in in Hg. destruct (i_net _ _ _ I _ _ Hg) as (sv & Hsv & Hsh & _).
     rewrite (Hall _ _ Hsv) in Hsh. discriminate.
   Qed.
 
@@ -246,7 +287,7 @@ Section Protocol.
   Definition progress_label (l : label) : bool :=
     match l with
     | LRunCall | LStopCall _ | LCancel | LReloadCall _ | LForeignBind _ | LForeignFree _
-    | LObsState _ | LObsDial _ _ | LObsServe _ _ | LQuiesce | LRunRet _ | LStopRet _ | LReloadRet _
+    | LObsState _ | LObsDial _ _ | LObsServe _ _ | LObsCensus _ | LQuiesce | LRunRet _ | LStopRet _ | LReloadRet _
     | LLasClosed _ => false
     | _ => true
     end.
@@ -263,10 +304,10 @@ Section Protocol.
     exists l, progress_label l = true /\ step s l <> None.
   Proof.
     intros I Hc Hh.
-    assert (Hk : kpc s <> KFree) by (intros E; apply (i_free _ _ I) in E; contradiction).
+    assert (Hk : kpc s <> KFree) by (intros E; apply (i_free _ _ _ I) in E; contradiction).
     assert (Hrel : forall k, kpc s = k -> ~ boot_kpc k -> ~ stop_kpc k -> exists i, holder s = Some (ByReload i)).
     { intros k Ek Hb Hs. destruct (holder s) as [[|i]|] eqn:Eh; [|eauto|contradiction].
-      destruct (i_run _ _ I Eh) as [[_ H]|[_ H]]; rewrite Ek in H; contradiction. }
+      destruct (i_run _ _ _ I Eh) as [[_ H]|[_ H]]; rewrite Ek in H; contradiction. }
     unfold HttpServer.step, step_core. rewrite ?Hc.
     destruct (kpc s) eqn:Ek; try contradiction.
     - destruct (Hrel KFetch eq_refl) as [i Eh]; auto. exists (LFetch CbErr). rewrite ?Ek, ?Eh. split; [reflexivity|discriminate].
@@ -290,8 +331,8 @@ Section Protocol.
         * exists LBootCrash. rewrite ?Ek, ?En, ?Em. split; [reflexivity|discriminate].
       + exists LBootReject. rewrite ?Ek, ?En. unfold fail_boot.
         destruct (holder s) as [[|i]|]; [| |contradiction]; split; try reflexivity; discriminate.
-    - destruct (i_probe _ _ I sid) as (sv & Hn & Hsh); [auto|].
-      pose proof (i_errs _ _ I) as He.
+    - destruct (i_probe _ _ _ I sid) as (sv & Hn & Hsh); [auto|].
+      pose proof (i_errs _ _ _ I) as He.
       destruct (s_pc sv) eqn:Ep.
       + destruct (bound_any (net s) (addr (s_cfg sv))) eqn:Eb.
         * exists (LBindFail sid). unfold srv_at. rewrite ?Hn, ?Ep, ?Hsh, ?Eb. cbn. rewrite ?Eb. split; [reflexivity|discriminate].
@@ -305,8 +346,8 @@ Section Protocol.
         * exists LProbeOk. rewrite ?Ek. unfold srv_at. rewrite ?Hn, ?He, ?Ep, ?Eb. cbn. unfold boot_ok.
           destruct (holder s) as [[|i]|]; [| |contradiction]; split; try reflexivity; discriminate.
         * exists LProbeTimeout. rewrite ?Ek. unfold srv_at. rewrite ?Hn, ?Eb. split; [reflexivity|discriminate].
-    - destruct (i_probe _ _ I sid) as (sv & Hn & Hsh); [auto|].
-      destruct (i_live _ _ I sid) as [Es Eo]; [exists sv; auto|].
+    - destruct (i_probe _ _ _ I sid) as (sv & Hn & Hsh); [auto|].
+      destruct (i_live _ _ _ I sid) as [Es Eo]; [exists sv; auto|].
       exists (LCleanupCall sid). rewrite ?Ek, ?Es, ?Eo, !Nat.eqb_refl. split; [reflexivity|discriminate].
     - exists (LShutdownRet sid SOk). rewrite ?Ek, ?Nat.eqb_refl. unfold fail_boot. cbn [holder with_server].
       destruct (holder s) as [[|i]|]; [| |contradiction]; split; try reflexivity; discriminate.
@@ -319,26 +360,26 @@ Section Protocol.
     crashed s = false -> rpc s <> RNew -> (cancelled s || stop_req s = true) ->
     run_returned s = true \/ exists l, progress_label l = true /\ step s l <> None.
   Proof.
-    intros Hn Hr Hc Hnew Hstop. pose proof (inv_reachable validated mux_ok c0 ls s Hn Hr) as I.
+    intros Hn Hr Hc Hnew Hstop. pose proof (inv_reachable stop_locked validated mux_ok c0 ls s Hn Hr) as I.
     unfold run_returned. destruct (rpc s) eqn:Er; auto; try contradiction; right.
     - exists LRunStart. unfold HttpServer.step, step_core. rewrite Hc, Er.
       split; [reflexivity|destruct (fsm_allowed _ _); discriminate].
-    - destruct (i_early _ _ I) as (_ & _ & Eh); [auto|].
+    - destruct (i_early _ _ _ I) as (_ & _ & Eh); [auto|].
       exists LRunLock. unfold HttpServer.step, step_core. rewrite Hc, Er, Eh. split; [reflexivity|discriminate].
-    - apply crit_progress; auto. rewrite (i_rpc _ _ I); [discriminate|auto].
+    - apply crit_progress; auto. rewrite (i_rpc _ _ _ I); [discriminate|auto].
     - exists LRunFinishBoot. unfold HttpServer.step, step_core. rewrite Hc, Er.
       split; [reflexivity|destruct (fsm_allowed _ _); discriminate].
     - exists LRunWake. unfold HttpServer.step, step_core. rewrite Hc, Er, Hstop. split; [reflexivity|discriminate].
     - destruct (holder s) eqn:Eh.
       + apply crit_progress; auto. congruence.
       + exists LRunLockStop. unfold HttpServer.step, step_core. rewrite Hc, Er, Eh. split; [reflexivity|discriminate].
-    - apply crit_progress; auto. rewrite (i_rpc _ _ I); [discriminate|auto].
+    - apply crit_progress; auto. rewrite (i_rpc _ _ _ I); [discriminate|auto].
   Qed.
 End Protocol.
 
 (* lc.Stop returns only after Run's deferred done() *)
-Lemma stop_ret_after_run validated mux_ok s j s' :
-  step validated mux_ok s (LStopRet j) = Some s' -> (exists r, rpc s = RRet r) \/ rpc s = RDone.
+Lemma stop_ret_after_run sl validated mux_ok s j s' :
+  step sl validated mux_ok s (LStopRet j) = Some s' -> (exists r, rpc s = RRet r) \/ rpc s = RDone.
 Proof.
   intros H. open_step H. destruct (crashed s); [discriminate|]. destruct (mem j (stoppers s)); [|discriminate].
   destruct (rpc s); try discriminate; eauto.
@@ -361,9 +402,9 @@ Definition reload_failing (s : state) (l : label) : bool :=
   end.
 
 (* every way a Reload gives up the mutex: a failure (state Error), or the final Transition(Running) *)
-Theorem visible_step validated mux_ok s l s' i :
+Theorem visible_step sl validated mux_ok s l s' i :
   holder s = Some (ByReload i) -> holder s' = None ->
-  step validated mux_ok s l = Some s' ->
+  step sl validated mux_ok s l = Some s' ->
   (reload_failing s l = true /\ fsm_st s' = FError) \/
   ((l = LUnchanged \/ l = LFinish) /\ (fsm_st s' = FRunning \/ fsm_st s' = FError)).
 Proof.
@@ -393,6 +434,12 @@ Definition wit_sched : list label :=
 (* Stop() arrives while a Reload holds the mutex: the state machine says Running while Run() has already
    closed the listener (confirmed on the real code: connection refused for the whole drain) *)
 Theorem running_while_stopping :
-  exists s, run (step false (fun _ => true)) (init wit_cfg) wit_sched = Some s /\
+  exists s, run (step false false (fun _ => true)) (init wit_cfg) wit_sched = Some s /\
             fsm_st s = FRunning /\ bound_any (net s) (addr wit_cfg) = false /\ rpc s = RInStop.
+Proof. eexists. split; [vm_compute; reflexivity|]. repeat split. Qed.
+
+(* the same schedule against the repaired shutdown: the state is Stopping while the listener is closed *)
+Theorem stopping_while_stopping_repaired :
+  exists s, run (step true false (fun _ => true)) (init wit_cfg) wit_sched = Some s /\
+            fsm_st s = FStopping /\ bound_any (net s) (addr wit_cfg) = false /\ rpc s = RInStop.
 Proof. eexists. split; [vm_compute; reflexivity|]. repeat split. Qed.
